@@ -16,6 +16,7 @@ EXPLANATION = (
     "stop() takes and awaits after cancelling; (5) NO-SEND-AFTER-STOP — the request sender refuses to send once the shutdown "
     "token is cancelled."
     ' NO-SEND-AFTER-STOP also requires that no await point lies between the shutdown check and the transport send.'
+    ' SHUTDOWN also decides stop:every-return-after-cancel (with leave_network spliced into stop(), no return of stop() is reachable by variant-tracking reachability without shutdown.cancel(), unless the token is found already cancelled) and stop:every-return-after-joins (after the cancel every path takes both task handles).'
 )
 NOT_DECIDED = "actual absence of deadlock / starvation under every schedule; the time bound of stop() itself (leave_network awaits one request timeout per connected peer, sequentially)"
 ASSUMPTIONS = ["tokio RwLock/Mutex are fair enough that an acyclic order suffices", "tokio::time::timeout fires"]
